@@ -56,7 +56,7 @@ def register(J):
             defs.append("-DSUFFIX_EMPTY=1")
         J.append(Job("dropins.p%d.s%s.pre%d" % (npost, suffix.replace(".", "dot") or "none", pre),
                      ["C01", "C06", "C13", "C20", "C04", "C16"], "harness/dropins.c",
-                     sources=["lib/mergefiles.c", "lib/helpers.c"], stubs=["stubs/h2.c"], contracts=SHIM,
+                     sources=["lib/mergefiles.c", "lib/helpers.c"], stubs=["stubs/h2.c", "stubs/strstr_real.c"], contracts=SHIM,
                      unwind=14, post_unwindset={"traverse_conf_dirs.0": npost + 1, "check_conf_dir.0": 3,
                                                 "check_conf_dir.1": 3, "realloc.0": 9},
                      tier="T2", defines=defs, tiers=tiers, timeout=900, mem_gb=6, nobody_ok=[".*"], trusted=FS_TRUST,
@@ -108,7 +108,7 @@ def register(J):
             for vp in (0, 1):
                 for vs in (0, 1):
                     for vo in (0, 1, 2):
-                        quick = (vn, vp, vs, vo) in ((1, 1, 1, 0), (0, 1, 1, 2), (0, 0, 0, 0), (1, 0, 1, 1)) and fn == 6
+                        quick = (vn, vp, vs, vo) in ((1, 1, 1, 0), (0, 1, 1, 2), (0, 0, 0, 0), (1, 0, 1, 1), (1, 1, 1, 2), (1, 0, 0, 2)) and fn == 6
                         J.append(Job("wrappers.fn%d.n%dp%ds%do%d" % (fn, vn, vp, vs, vo), ["C01", "C12", "C06", "C20"],
                                      "harness/wrappers.c", sources=["lib/libeconf.c"], stubs=["stubs/snprintf_real.c"],
                                      contracts=SHIM, unwind=26, post_unwindset=us, tier="T2",
